@@ -9,7 +9,7 @@ from . import common
 LEVEL = "proof"
 TRUSTED = [
     "model: lean/RpyModel/Graph.lean (mirror of ops.py link/merge/concat_multi_inputs, model.py Model/update_graph, utils/graphflow.py find_entries_and_exits/topological_sort)",
-    "theorems: lean/RpyProofs/Props/C03.lean (Kahn sound and complete for every closed duplicate-free graph: accepted <=> acyclic, valid order, any cycle rejected; link/merge edge algebra as sets; entries/exits; one-node Concat insertion)",
+    "theorems: lean/RpyProofs/Props/C03.lean (Kahn sound and complete for every closed duplicate-free graph: accepted <=> acyclic, valid order, any cycle rejected; link/merge edge algebra as sets; entries/exits; one-node Concat insertion and the whole pass: every inserted Concat feeds exactly one node and gathers exactly that node's distinct predecessors, whatever the visiting order and however predecessor sets nest - C03_concat_pass)",
     "carried by correspondence only: canonical (Concat-name-free) equality for chained / nested expressions, i.e. associativity of >> and & up to inserted Concat nodes",
     "Python set iteration order is irrelevant to every comparison (sorted canonical forms)",
 ]
